@@ -927,6 +927,26 @@ pub fn fen_stream(args: &[String]) {
             special.push(b2.to_string());
             special.push(a.to_string());
         }
+        // well-known placements with every subset of the castling rights and either side to move (pieces back home after an
+        // excursion: the start position without some rights is a different position from the start position; a loader that
+        // recognises a placement must not forget the rest of the position)
+        for placement in ["rnbqkbnr/pppppppp/8/8/8/8/PPPPPPPP/RNBQKBNR", "r3k2r/8/8/8/8/8/8/R3K2R",
+            "r3k2r/p1ppqpb1/bn2pnp1/3PN3/1p2P3/2N2Q1p/PPPBBPPP/R3K2R", "r3k2r/pppppppp/8/8/8/8/PPPPPPPP/R3K2R"] {
+            for mask in 0..16u32 {
+                let mut r = String::new();
+                for (bit, c) in [(1, 'K'), (2, 'Q'), (4, 'k'), (8, 'q')] {
+                    if mask & bit != 0 {
+                        r.push(c);
+                    }
+                }
+                if r.is_empty() {
+                    r.push('-');
+                }
+                for turn in ["w", "b"] {
+                    special.push(format!("{placement} {turn} {r} - {} {}", mask % 7, 1 + mask));
+                }
+            }
+        }
         // material far beyond any game (the evaluation's i16 arithmetic near its limits): 36 queens and 0..3 pawns against a bare
         // king, either colour, either side to move — evaluation, mirror and side-swapped twin are compared on these too
         for pawns in 0..4usize {
